@@ -53,6 +53,7 @@ import (
 	"reflect"
 	"runtime"
 	"slices"
+	"strings"
 	_ "unsafe"
 
 	"golang.org/x/tools/go/ssa"
@@ -636,6 +637,9 @@ func runFrame(fr *frame) {
 		if isEnginePanic(p) {
 			panic(p) // not visible to the target program
 		}
+		if !isTargetPanic(p) {
+			panic(engineBug{fmt.Sprintf("%v\n  target stack: %s", p, targetStack(fr))})
+		}
 		fr.panicking = true
 		fr.panic = p
 		fr.runDefers()
@@ -752,3 +756,24 @@ func isEnginePanic(p interface{}) bool {
 
 // engineBug wraps a panic raised by the executor itself (not by the target).
 type engineBug struct{ msg string }
+
+func isTargetPanic(p interface{}) bool {
+	switch p := p.(type) {
+	case targetPanic, targetRuntimeError:
+		return true
+	case runtime.Error:
+		return strings.Contains(p.Error(), "nil pointer dereference")
+	}
+	return false
+}
+
+func targetStack(fr *frame) string {
+	var b strings.Builder
+	for f, n := fr, 0; f != nil && n < 12; f, n = f.caller, n+1 {
+		if n > 0 {
+			b.WriteString(" <- ")
+		}
+		b.WriteString(f.fn.String())
+	}
+	return b.String()
+}
